@@ -82,7 +82,7 @@ def _base_files(wd, tier, plan=None):
     rng = vf.rng()
     if tier == "quick":
         small = [p for s, p in sized if 40 <= s <= 700]
-        pick = frag + rng.sample(small, min(8, len(small)))
+        pick = frag + rng.sample(small, min(6, len(small)))
     else:
         small = [p for s, p in sized if s <= 1500]
         large = [p for s, p in sized if 1500 < s <= 12000]
@@ -323,12 +323,12 @@ def _plan(tier, prop):
             "chunk": 400000, "gen_workers": 3, "gen_parallel": 3, "files_small": 40, "files_large": 1,
         }
     return {
-        "exh": [("full", FULL, 2, 0), ("mid", MID, 3, 3), ("core", CORE, 4, 4)],
+        "exh": [("full", FULL, 2, 0), ("mid", MID4, 3, 3), ("core", CORE, 4, 4)],
         # tlc -simulate checks the export invariant on every successor of the last step: num x |alphabet| cases
         "sim": [("sim", FULL, 16, 30), ("simcore", CORE, 10, 60)],
-        "stride": 41 if prop == "parse" else 131,
+        "stride": 61 if prop == "parse" else 131,
         "depths": [2, 40],
-        "chunk": 120000, "gen_workers": 2, "gen_parallel": 6, "files_small": 8, "files_large": 0,
+        "chunk": 120000, "gen_workers": 2, "gen_parallel": 6, "files_small": 6, "files_large": 0,
     }
 
 
